@@ -230,7 +230,27 @@ func cmdVerify(args []string) {
 		}
 		fmt.Printf("%s: %d paths, %d obligations\n", r.Func, r.Paths, len(r.Obls))
 	}
+	retCov := map[string][2]int{}
 	for _, o := range all {
+		if o.Cover && o.Label == "return" {
+			c := retCov[o.Func]
+			c[0]++
+			if o.Result == "unsat" {
+				c[1]++
+			}
+			retCov[o.Func] = c
+		}
+	}
+	for f, c := range retCov {
+		if c[0] > 0 && c[0] == c[1] {
+			fmt.Printf("VACUOUS %s: every returning path has contradictory assumptions\n", f)
+			bad++
+		}
+	}
+	for _, o := range all {
+		if o.Cover && o.Label == "return" {
+			continue
+		}
 		ok := (o.Cover && o.Result != "unsat") || (!o.Cover && o.Result == "unsat")
 		if !ok {
 			bad++
@@ -348,9 +368,14 @@ func (w *World) expandRefinements(fn *ssa.Function, fs *FuncSpec) error {
 		_ = sig
 		// positional names: the interface contract uses the interface's declared parameter names; look them up
 		if names := w.ifaceParamNames(rf.IfaceMethod); names != nil {
+			off := len(fn.Params) - len(params)
 			for i, n := range names {
 				if i < len(params) && n != "" && n != "_" {
-					idents[n] = params[i].Name()
+					pn := params[i].Name()
+					if pn == "_" || pn == "" {
+						pn = fmt.Sprintf("blank%d", i+off)
+					}
+					idents[n] = pn
 				}
 			}
 		}
